@@ -62,6 +62,24 @@ func (ex *Exec) callValue(fr *Frame, fnv Val, args []Val, site ssa.Instruction, 
 	}
 	// dynamic call of an opaque function value
 	if fnv.K == VTerm {
+		// a function stored in a field for which a closure spec is declared
+		if u, ok := common.Value.(*ssa.UnOp); ok {
+			if fa, ok := u.X.(*ssa.FieldAddr); ok {
+				pt := fa.X.Type().Underlying().(*types.Pointer).Elem()
+				if nt, ok := types.Unalias(pt).(*types.Named); ok {
+					if stt, ok := nt.Underlying().(*types.Struct); ok && nt.Obj().Pkg() != nil {
+						key := nt.Obj().Pkg().Name() + "." + nt.Obj().Name() + "." + stt.Field(fa.Field).Name()
+						if sn, ok := vc.prog.contracts.FieldSpecs[key]; ok {
+							if sp := vc.prog.contracts.Specs[sn]; sp != nil {
+								ex.applyContract(fr, sp, nil, common.Signature(), args, site, st, k, "spec "+sp.Name)
+								return
+							}
+							vc.fatalf("fieldspec %s: unknown spec %s", key, sn)
+						}
+					}
+				}
+			}
+		}
 		if sp, ok := vc.funcSpecs[fnv.T.S]; ok {
 			ex.applyContract(fr, sp, nil, common.Signature(), args, site, st, k, "spec "+sp.Name)
 			return
